@@ -1,0 +1,13 @@
+//go:build verif
+
+package context
+
+// VerifHook, when set by a verification harness, is called at the decision
+// points of the Pool. It is only compiled with the "verif" build tag.
+var VerifHook func(point string)
+
+func verifPoint(point string) {
+	if h := VerifHook; h != nil {
+		h(point)
+	}
+}
